@@ -120,7 +120,7 @@ PROPS['C07'] = {
               'thorough': ['dist', 'seed={seed}', 'n=400000', 'names=5', 'len=4']}] +
             # the real parallel driver: which file patches it queues for which worker (hook record_queues)
             [{'quick': ['push', 'seed={seed}', 'n=3000', 'inv=2', 'threads=2,3,4', 'patches=6'],
-              'thorough': ['push', 'seed={seed}', 'n=100000', 'inv=2', 'threads=2,3,4,8', 'patches=8']}],
+              'thorough': ['push', 'seed={seed}', 'n=30000', 'inv=2', 'threads=2,3,4,8', 'patches=8']}],
     'nontrivial': lambda l: (re.search(r'queues=\d', l) is not None) if l.startswith('W|') else (l.split('|')[3].count(';') >= 1 and re.search(r'\d:\d', l.split('|')[3]) is not None),
     'histogram': lambda c, d: (['driver-level:' + (re.search(r'C07=(\w+)', d).group(1) if re.search(r'C07=(\w+)', d) else '?')] if c.startswith('W|') else
                               ['pairs=%d' % min(9, (c.split('|')[3].count(';') + 1 if c.split('|')[3] != '-' else 0)),
@@ -192,7 +192,10 @@ PUSH_TRUSTED = ["abstract file system RQ/Model/FS.lean stands for the kernel (le
                 "presentation options at all; runs with -v/-vv/--stats/--color/-A must give the model's result"]
 
 PROPS['C10'] = {
-    'theorems': ['RQ.Push.C10_no_write', 'RQ.Push.applyLoop_dry_same_final', 'RQ.Push.C10_parallel'],
+    'theorems': ['RQ.Push.C10_no_write', 'RQ.Push.applyLoop_dry_same_final', 'RQ.Push.C10_parallel',
+                 'RQ.Push.C10_push_predicts', 'RQ.Push.C10_push_predicts_or_output_failure', 'RQ.Push.C10_push_exit', 'RQ.Push.C10_push_error_iff',
+                 'RQ.Push.C10_failingPatch', 'RQ.Push.C10_notAll_iff_failing', 'RQ.Spec.C10_spec_no_write', 'RQ.Spec.C10_spec_exit', 'RQ.Spec.C10_spec_failing'],
+    'extra_modules': ['RQ.Props.C10Push'],
     'verdict': 'C10',
     'jobs': push_jobs(['dry=50', 'inv=2'], ['dry=50', 'inv=3'], nq=4000) +
             [{'quick': ['pushsched', 'seed={seed}', 'n=900', 'perws=3', 'dry=100', 'fail=90', 'morefail=85'], 'thorough': ['pushsched', 'seed={seed}', 'n=30000', 'perws=6', 'dry=100', 'fail=90', 'morefail=85']}],
@@ -388,8 +391,9 @@ PROPS['C13'] = {
 
 PROPS['C05'] = {
     'theorems': ['RQ.Abs.C05_apply_refines', 'RQ.Abs.C05_tree_on_disk', 'RQ.Abs.C05_oracle_agrees', 'RQ.Abs.C05_disk_is_oracle', 'RQ.Abs.C05_pushSpec_agrees', 'RQ.Abs.C05_disk_is_pushSpec', 'RQ.Abs.C05_exit_and_names',
-                 'RQ.Refine2.C05_push_refines_pushSpec', 'RQ.Refine2.C05_push_refines_pushSpec_any', 'RQ.Refine2.C05_push_refines_pushSpec_files', 'RQ.Refine2.C05_push_refines_pushSpec_whole', 'RQ.Refine2.C05_push_refines_pushSpec_all'],
-    'extra_modules': ['RQ.Props.C05Refine', 'RQ.Props.C08Refine'],
+                 'RQ.Refine2.C05_push_refines_pushSpec', 'RQ.Refine2.C05_push_refines_pushSpec_any', 'RQ.Refine2.C05_push_refines_pushSpec_files', 'RQ.Refine2.C05_push_refines_pushSpec_whole', 'RQ.Refine2.C05_push_refines_pushSpec_all',
+                 'RQ.Refine2.C05_driver_succeeds', 'RQ.Refine2.C05_push_is_pushSpec', 'RQ.Refine2.C05_push_is_pushSpec_all', 'RQ.Refine2.C05_exit_zero_iff', 'RQ.Refine2.C05_whole_range_applies'],
+    'extra_modules': ['RQ.Props.C05Refine', 'RQ.Props.C08Refine', 'RQ.Props.C05Complete'],
     'verdict': 'SPEC',
     'jobs': push_jobs(['inv=2', 'patches=5'], ['inv=3', 'patches=6'], nq=4000) +
             [{'quick': ['pushsched', 'seed={seed}', 'n=900', 'perws=3', 'fail=75', 'morefail=70'], 'thorough': ['pushsched', 'seed={seed}', 'n=30000', 'perws=6', 'fail=75', 'morefail=70']}],
